@@ -141,6 +141,10 @@ def f_power(a, b):
     except OverflowError:
         raise Skip("overflow sign")
     except ValueError:
+        # Python raises where IEEE 754 / Java Math.pow define a result
+        if a == 0.0 and b < 0:
+            odd = b == math.floor(b) and abs(b) < 2**53 and int(b) % 2 != 0
+            return -math.inf if (odd and math.copysign(1.0, a) < 0) else math.inf
         return math.nan
 
 def f_exp(x):
@@ -463,6 +467,12 @@ def f_least(*a):
 def jrepl(r):
     return re.sub(r"\$(\d)", lambda m: "\\g<%s>" % m.group(1), r.replace("\\", "\\\\"))
 
+def no_empty_match(p):
+    # what a scan does after an empty match (advance, allow an empty match right
+    # after a non-empty one, ...) differs between regex engines and is not documented
+    if re.fullmatch(p, "") is not None or re.search(p, "") is not None:
+        raise Skip("pattern can match the empty string")
+
 def f_regexp_like(s, p):
     return re.search(p, s) is not None
 
@@ -475,9 +485,11 @@ def f_regexp_extract(s, p, g=0):
     return m.group(g)
 
 def f_regexp_replace(s, p, r=""):
+    no_empty_match(p)
     return re.sub(p, jrepl(r), s)
 
 def f_regexp_count(s, p):
+    no_empty_match(p)
     return sum(1 for _ in re.finditer(p, s))
 
 def f_regexp_position(s, p):
